@@ -373,7 +373,12 @@ func (pf Producer[T]) WithCancel() (Producer[T], context.CancelFunc) {
 		once.Do(func() { wctx, cancel = context.WithCancel(ctx) })
 		Invariant.IsFalse(wctx == nil, "must start the operation before calling cancel")
 		return pf(wctx)
-	}, func() { once.Do(func() {}); ft.SafeCall(cancel) }
+	}, func() {
+		// when cancel runs before the first call, later calls run with
+		// a context that is already canceled.
+		once.Do(func() { wctx, cancel = context.WithCancel(context.Background()) })
+		ft.SafeCall(cancel)
+	}
 }
 
 // Limit runs the producer a specified number of times, and caches the
